@@ -26,6 +26,7 @@ class Variant:
     edit: object         # callable(tree) -> bool (site found and edited)
     rule: str | None = None        # witness: rule that must fire
     construct: str | None = None   # witness: substring the reported construct must contain
+    seed: dict | None = None       # kind 'seed' / 'seed-obsolete': stored seeded change applied as text
 
 
 def witness(name, path, edit, rule, construct=None):
@@ -50,6 +51,13 @@ def _module_by_path(prog, path):
 
 
 def _apply(prog, v):
+    if v.seed is not None:
+        from .seedcorpus import overrides_for, PatchDoesNotApply
+        try:
+            ov = overrides_for(prog, v.seed)
+        except PatchDoesNotApply:
+            return None
+        return Program(prog.root, overrides=ov, base=prog)
     m = _module_by_path(prog, v.path)
     import warnings
     with warnings.catch_warnings():
@@ -79,7 +87,12 @@ def all_variants(prop, mod):
     for f in getattr(mod, "EXTRA_FILES", []):
         if f not in files:
             files.append(f)
-    return out + auto_rename_twins(files)
+    from .seedcorpus import seeds_of
+    seeds = []
+    for sd in seeds_of(prop):
+        kind = "seed-obsolete" if sd["obsolete"] else "seed"
+        seeds.append(Variant(kind, "seeded change %s: %s" % (sd["name"], sd["summary"]), "", None, None, None, sd))
+    return out + auto_rename_twins(files) + seeds
 
 
 def _run_one(args):
@@ -101,10 +114,24 @@ def _run_one(args):
     if ctx.inconclusive and v.name.startswith("auto:") and not new:
         # alpha-renaming made a name-anchored rule inconclusive: tolerated (never a violation), recorded in evidence
         return (idx, "inconclusive", ctx.inconclusive[:300])
-    if ctx.inconclusive and not (v.kind == "witness" and any(f.rule == v.rule for f in new)):
+    if ctx.inconclusive and v.kind not in ("seed", "seed-obsolete") and not (v.kind == "witness" and any(f.rule == v.rule for f in new)):
         if v.kind == "witness":
             return (idx, "fail", "witness made the analysis inconclusive instead of firing: %s" % ctx.inconclusive)
         return (idx, "fail", "twin made the analysis inconclusive: %s" % ctx.inconclusive)
+    if v.kind == "seed":
+        caught_elsewhere = v.seed.get("caught_by")
+        if new:
+            return (idx, "ok", "reported: %s" % ", ".join(sorted({f.rule for f in new})))
+        if caught_elsewhere:
+            return (idx, "skipped", "not decided by this property's rules (reported by %s)" % caught_elsewhere)
+        if ctx.inconclusive:
+            return (idx, "fail", "seeded change made the analysis inconclusive instead of being reported: %s" % ctx.inconclusive[:200])
+        return (idx, "fail", "seeded change %s is not reported" % v.seed["name"])
+    if v.kind == "seed-obsolete":
+        if new:
+            return (idx, "fail", "obsolete (now harmless) seeded change %s is reported: %s" %
+                    (v.seed["name"], [(f.rule, f.message[:80]) for f in new]))
+        return (idx, "ok", "silent (change is harmless on the repaired tree)")
     if v.kind == "witness":
         hit = [f for f in new if f.rule == v.rule and (v.construct is None or v.construct in f.construct)]
         if hit:
@@ -142,6 +169,7 @@ def run_variants(prop, mod, prog, base_ctx, tier, seed):
     if tier == "quick":
         rnd = random.Random(seed)
         w = [i for i in idxs if allv[i].kind == "witness"]
+        # (stored seeded changes run in the thorough tier only)
         t = [i for i in idxs if allv[i].kind == "twin"]
         r = [i for i in idxs if allv[i].kind == "repair"]
         idxs = sorted(rnd.sample(w, min(3, len(w))) + rnd.sample(t, min(2, len(t))) + r)
@@ -169,6 +197,8 @@ def run_variants(prop, mod, prog, base_ctx, tier, seed):
             fails.append("%s %s: %s" % (v.kind, v.name, msg))
         elif v.kind == "witness":
             res["witnesses_run"] += 1
+        elif v.kind in ("seed", "seed-obsolete"):
+            res["seeds_run"] = res.get("seeds_run", 0) + 1
         else:
             res["twins_run"] += 1
     if fails:
